@@ -77,8 +77,9 @@ impl Apath {
             Ordering::Greater => false,
             Ordering::Equal => self.0 == a.0,
             Ordering::Less => {
+                // Compare bytes, not chars: `len` is a length in bytes.
                 a.0.starts_with(&self.0)
-                    && (self.0.ends_with('/') || a.0.chars().nth(self.0.len()) == Some('/'))
+                    && (self.0.ends_with('/') || a.0.as_bytes()[len] == b'/')
             }
         }
     }
